@@ -36,7 +36,7 @@ from ..case import Case
 PROP = "C17"
 
 BOUNDS = {
-    "quick": "witness-minorant validity of the bound: exp / cosh-1 (Dx,Dy) in {(1,1),(1,2),(2,1)}, rectified-linear Dx=1, Dy in {1,2}, both weight signs; zero-weight exactness and first-order tightness (exp, cosh-1): (Dx,Dy=Da,Dk) in {(1,1,1),(2,2,1),(1,2,2)}, every sign pattern of the offsets, offsets != 0, N=1 observation; step-link equality of the bound at Dx=1, Dk=1, Dy=Da in {1,2}, both weight signs; coherence: all four links; (Dy,Da,Dk) in {(1,1,1),(2,2,1),(2,2,2)} (A square) and {(1,2,1),(1,2,2),(2,3,2)} (A wide, Da>Dy); Dx<=2; N=2 points; link values arbitrary (exp, cosh-1) or on either side of the kink (step, relu)",
+    "quick": "witness-minorant validity of the bound: exp / cosh-1 (Dx,Dy) in {(1,1),(1,2),(2,1)} with one noise unit and (1,2) with two, rectified-linear Dx=1, Dy in {1,2}, both weight signs; zero-weight exactness and first-order tightness (exp, cosh-1): (Dx,Dy=Da,Dk) in {(1,1,1),(2,2,1),(1,2,2)}, every sign pattern of the offsets, offsets != 0, N=1 observation; step-link equality of the bound at Dx=1, Dk=1, Dy=Da in {1,2}, both weight signs; coherence: all four links; (Dy,Da,Dk) in {(1,1,1),(2,2,1),(2,2,2)} (A square) and {(1,2,1),(1,2,2),(2,3,2)} (A wide, Da>Dy); Dx<=2; N=2 points; link values arbitrary (exp, cosh-1) or on either side of the kink (step, relu)",
     "thorough": "adds Dy=Da=3 with A bound to generic rationals, Dx=3",
 }
 ASSUMPTIONS = ["claimed: the coherence clause (all links), the step-link equality for Dx=1, exactness at zero input weights (exp, cosh-1; non-zero offsets), the first-order tightness condition d gap/d eps = 0 at eps = 0 (exp, cosh-1), and lb <= true expectation by a witness minorant (exp, cosh-1: Dx<=2; rectified-linear: Dx=1; Dk=1, square A); declined: the inequality outside those shapes, tightness beyond first order",
@@ -319,7 +319,7 @@ def _relu_truth_quad(I, Dy):
     return integrate.quad(f, lo, hi, points=pts or None, epsabs=1e-12, epsrel=1e-11, limit=400)[0]
 
 
-def jj_minorant_case(link, Dx, Dy, timeout=1200):
+def jj_minorant_case(link, Dx, Dy, timeout=1200, Dk=1):
     """C17, 'lb <= true expectation' for the exp and cosh-1 links at ARBITRARY weights, by a witness (as relu_minorant_case):
     with both variational parameters replaced by arbitrary positive numbers the returned value must equal E_p(x)[g(x)] for
         exp:    g = -1/2|z|^2 + 1/2 z_1^2 exp(h/2 - f(o*) - f'(o*)/(2o*) (h^2-o*^2)) - 1/2 ln det AA'
@@ -330,12 +330,12 @@ def jj_minorant_case(link, Dx, Dy, timeout=1200):
     for phi in {f, F} (phi(sqrt(u)) is concave in u) -- an AXIOM of this check, like the Gaussian mass formula; z3 cannot derive it.
     Expectations of z_1^2 exp(quadratic) are tilted-Gaussian closed forms.  On a failed equality the replay compares the returned
     value with quadrature of the TRUE expectation (adaptive for Dx=1, Gauss-Hermite for Dx=2): only lb > truth + 1e-6 is a violation."""
-    cid = f"C17/{link}-bound-valid/Dx{Dx}Dy{Dy}Da{Dy}Dk1"
+    cid = f"C17/{link}-bound-valid/Dx{Dx}Dy{Dy}Da{Dy}Dk{Dk}"
     cfg = dict(clause=f"{link} link: returned value never exceeds the true expected log-density (witness minorant, arbitrary variational parameters, arbitrary weights)",
-               Dx=Dx, Dy=Dy, Da=Dy, Dk=1)
+               Dx=Dx, Dy=Dy, Da=Dy, Dk=Dk)
 
     def declare(b):
-        b.free("M", (1, Dy, Dx)); b.free("bv", (1, Dy)); b.free("A", (1, Dy, Dy)); b.free("W", (1, Dx + 1))
+        b.free("M", (1, Dy, Dx)); b.free("bv", (1, Dy)); b.free("A", (1, Dy, Dy)); b.free("W", (Dk, Dx + 1))
         b.spd("Sx", 1, Dx); b.free("mx", (1, Dx)); b.free("y", (1, Dy))
         b.pos("omd", (1,)); b.pos("oms", (1,))
         b.exp_alias("omd_0", "Td", Fraction(1, 2)); b.exp_alias("oms_0", "Ts", Fraction(1, 2))
@@ -350,11 +350,10 @@ def jj_minorant_case(link, Dx, Dy, timeout=1200):
 
     def claims(I, O, ops):
         if not ops.symbolic:
-            return [("GE0", "true expectation (quadrature) - returned value", np.array([_smooth_truth_quad(I, link, Dx, Dy) - float(np.asarray(O["val"]).reshape(-1)[0])]), None)]
+            return [("GE0", "true expectation (quadrature) - returned value", np.array([_smooth_truth_quad(I, link, Dx, Dy, Dk) - float(np.asarray(O["val"]).reshape(-1)[0])]), None)]
         from .c14 import tilted
         M, bb, A_ = I["M"][0], I["bv"][0], I["A"][0]
         y = I["y"][0]
-        b0 = I["W"][0, 0]; w = [I["W"][0, 1 + j] for j in range(Dx)]
         m, S = I["mx"][0], I["Sx"][0]
         od, os_ = I["omd"][0], I["oms"][0]
         half = ops.c(Fraction(1, 2))
@@ -370,8 +369,6 @@ def jj_minorant_case(link, Dx, Dy, timeout=1200):
         hom = ops.zero()
         for i in range(Dy):
             hom = hom + mom.expect(spec.p_mul(zp[i], zp[i]))
-        hp = spec.p_affine(ops, w, b0)
-        Eh = mom.expect(hp); Eh2 = mom.expect(spec.p_mul(hp, hp))
 
         def cosh_(t): return half * (ops.exp(t) + ops.exp(-t))
         def tanh_(t): return (ops.exp(t) - ops.exp(-t)) / (ops.exp(t) + ops.exp(-t))
@@ -383,8 +380,9 @@ def jj_minorant_case(link, Dx, Dy, timeout=1200):
             lam = lambda t: tanh_(t) / (ops.c(2) * t)
         ls, ld_ = lam(os_), lam(od)
 
-        def kernel_expect(lin_coef, const):
-            """E_p[z_1^2 exp(-ls h^2 + lin_coef h + const)]"""
+        def kernel_expect(lin_coef, const, k=0):
+            """E_p[z_k^2 exp(-ls h_k^2 + lin_coef h_k + const)]"""
+            b0 = I["W"][k, 0]; w = [I["W"][k, 1 + j] for j in range(Dx)]
             Ak = ops.zeros((Dx, Dx)); ak = ops.zeros((Dx,))
             for i in range(Dx):
                 ak[i] = (lin_coef - ops.c(2) * ls * b0) * w[i]
@@ -392,35 +390,40 @@ def jj_minorant_case(link, Dx, Dy, timeout=1200):
                     Ak[i, j] = ops.c(2) * ls * w[i] * w[j]
             c_ = -ls * b0 * b0 + lin_coef * b0 + const
             mass, tm = tilted(ops, m, S, Ak, ak, c_)
-            return mass * tm.expect(spec.p_mul(zp[0], zp[0]))
+            return mass * tm.expect(spec.p_mul(zp[k], zp[k]))
         base = ls * os_ * os_ - f(os_)
-        if link == "exp":
-            het = kernel_expect(half, base)
-            ldet = ops.lnabs(dA * dA) + half * Eh + f(od) + ld_ * (Eh2 - od * od)
-        else:
-            ln2 = ops.log(ops.c(2))
-            het = kernel_expect(ops.one(), base - ln2) + kernel_expect(-ops.one(), base - ln2) - kernel_expect(ops.zero(), base)
-            ldet = ops.lnabs(dA * dA) + f(od) + ld_ * (Eh2 - od * od)
+        het = ops.zero(); ldet = ops.lnabs(dA * dA)
+        for k in range(Dk):            # the same (arbitrary) pair of variational parameters for every noise unit
+            hp = spec.p_affine(ops, [I["W"][k, 1 + j] for j in range(Dx)], I["W"][k, 0])
+            Eh = mom.expect(hp); Eh2 = mom.expect(spec.p_mul(hp, hp))
+            if link == "exp":
+                het = het + kernel_expect(half, base, k)
+                ldet = ldet + half * Eh + f(od) + ld_ * (Eh2 - od * od)
+            else:
+                ln2 = ops.log(ops.c(2))
+                het = het + kernel_expect(ops.one(), base - ln2, k) + kernel_expect(-ops.one(), base - ln2, k) - kernel_expect(ops.zero(), base, k)
+                ldet = ldet + f(od) + ld_ * (Eh2 - od * od)
         want = -half * (hom - het) - half * ldet - ops.c(Fraction(Dy, 2)) * ops.ln2pi()
         return [(f"{link} link: integrate_log_conditional_y = E_p[g], g a pointwise minorant of ln p(y|x) (Jaakkola-Jordan lemma; arbitrary variational parameters)", O["val"], np.array([want], dtype=object))]
 
     return Case(cid, PROP, cfg, declare, fn, claims, timeout=timeout, sat_note=WITNESS_NOTE)
 
 
-def _smooth_truth_quad(I, link, Dx, Dy):
+def _smooth_truth_quad(I, link, Dx, Dy, Dk=1):
     """E_{N(x; m, S)}[ln N(y; M x + b, AA' + a_1 a_1' link(w'x + w0))] by adaptive quadrature (Dx=1) / Gauss-Hermite (Dx=2)"""
     import math
     M, bb, A_ = np.asarray(I["M"][0], float), np.asarray(I["bv"][0], float), np.asarray(I["A"][0], float)
     y = np.asarray(I["y"][0], float)
-    W = np.asarray(I["W"][0], float)
+    W = np.asarray(I["W"], float)
     m, S = np.asarray(I["mx"][0], float), np.asarray(I["Sx"][0], float)
     AAt = A_ @ A_.T
-    a1 = A_[:, 0]
 
     def lp(x):
-        h = float(W[1:] @ x + W[0])
-        d = math.exp(h) if link == "exp" else math.cosh(h) - 1.0
-        Sg = AAt + d * np.outer(a1, a1)
+        Sg = AAt.copy()
+        for k in range(Dk):
+            h = float(W[k, 1:] @ x + W[k, 0])
+            d = math.exp(h) if link == "exp" else math.cosh(h) - 1.0
+            Sg = Sg + d * np.outer(A_[:, k], A_[:, k])
         r = y - M @ x - bb
         sign, ld = np.linalg.slogdet(Sg)
         return -0.5 * r @ np.linalg.solve(Sg, r) - 0.5 * ld - 0.5 * Dy * math.log(2 * math.pi)
@@ -597,6 +600,7 @@ def cases(tier, seed=0):
     for link in ("exp", "cosh"):
         for (Dx, Dy) in ((1, 1), (1, 2), (2, 1)):
             out.append(jj_minorant_case(link, Dx, Dy))
+        out.append(jj_minorant_case(link, 1, 2, Dk=2))
     for link in ("exp", "cosh"):
         for (Dx, Dy, Dk) in ((1, 1, 1), (2, 2, 1), (1, 2, 2)):
             for signs in itertools.product((1, -1), repeat=Dk):
